@@ -66,6 +66,9 @@ def run(ctx: common.Run):
     check_phase_by_closed_forms(ctx, cirq, n)
     check_predicates(ctx, cirq, n * 8)
     check_equality_pool(ctx, cirq)
+    check_control_value_equality(ctx, cirq)
+    check_predicates_pure(ctx, cirq)
+    check_commutes_tolerance(ctx, cirq)
     check_operation_predicates(ctx, cirq, n * 6)
 
 
@@ -613,6 +616,112 @@ def check_equality_pool(ctx, cirq):
         if not ok or not hashes:
             ctx.report_witness('predicate:eq:shape', 'two gates compare equal but act on different shapes / have different matrices / hash differently',
                                {'lines': [{'a': repr(ga), 'b': repr(gb)}], 'impl_out': ['a == b', str(cirq.qid_shape(ga)), str(cirq.qid_shape(gb))], 'spec_out': ['different gates'], 'theorem_or_correspondence': 'equality_sound'})
+
+
+def check_commutes_tolerance(ctx, cirq):
+    """cirq.commutes(a, b, atol=...) answers for the tolerance it is given, the same for gates and for operations: True when every entry of
+    ab - ba is far below atol, False when some entry is far above it"""
+    rng = ctx.substream('commutes-tol')
+    q = cirq.LineQubit.range(2)
+    for it in range(40 if ctx.tier == 'quick' else 400):
+        eps = 10 ** rng.uniform(-7, -1)
+        atol = 10 ** rng.uniform(-9, -1)
+        A, B = rng.choice([(cirq.X, cirq.Z), (cirq.Y, cirq.X), (cirq.H, cirq.Z), (cirq.CNOT, cirq.CZ), (cirq.ISWAP, cirq.CZ)])
+        g1, g2 = A, B ** eps
+        k = cirq.num_qubits(g1)
+        u1, u2 = cirq.unitary(g1), cirq.unitary(g2)
+        dev = float(np.abs(u1 @ u2 - u2 @ u1).max())
+        if 0.2 * atol < dev < 5 * atol:
+            continue  # too close to the threshold to demand an answer
+        want = dev <= atol
+        for form, x, y in (('gates', g1, g2), ('operations', g1.on(*q[:k]), g2.on(*q[:k]))):
+            got = cirq.commutes(x, y, atol=atol, default=None)
+            ctx.count('check', f'commutes-tol:{form}')
+            ctx.case(['commutes-tol', form, repr(g1), eps, atol], True)
+            if got is not None and bool(got) != want:
+                ctx.report_witness(f'predicate:commutes:tolerance:{form}', f'cirq.commutes on {form} answers {got} although the largest entry of ab - ba is {dev:.3g} and atol is {atol:.3g}',
+                                   {'lines': [{'a': repr(x), 'b': repr(y), 'atol': atol}], 'impl_out': [bool(got)], 'spec_out': [want], 'theorem_or_correspondence': 'commutes_sound'})
+
+
+def check_predicates_pure(ctx, cirq):
+    """asking a question about a gate does not change the gate: after equality, hashing, approximate / up-to-phase equality, commutation,
+    powers and inverses have been computed from it, its matrix and its description are what they were"""
+    rng = ctx.substream('purity')
+    fams = [cirq.XPowGate, cirq.YPowGate, cirq.ZPowGate, cirq.HPowGate, cirq.CZPowGate, cirq.CXPowGate, cirq.SwapPowGate, cirq.ISwapPowGate, cirq.XXPowGate, cirq.YYPowGate, cirq.ZZPowGate,
+            cirq.CCZPowGate, cirq.CCXPowGate]
+    n = 60 if ctx.tier == 'quick' else 600
+    for it in range(n):
+        F = rng.choice(fams)
+        e = rng.choice([0.5, 1, 0.25, -0.5, 2, round(rng.uniform(-2, 2), 3)])
+        sh = rng.choice([0, 0.25, -0.5, 0.5, round(rng.uniform(-1, 1), 3)])
+        g = F(exponent=e, global_shift=sh)
+        twin = F(exponent=e, global_shift=sh)
+        others = [F(exponent=e), F(exponent=e, global_shift=sh + 1), F(exponent=e + 2, global_shift=sh), cirq.S, cirq.CZ, cirq.X, F(exponent=1)]
+        u0, r0 = cirq.unitary(g).copy(), repr(g)
+        if rng.random() < 0.5:
+            hash(g)
+        calls = [
+            ('equal_up_to_global_phase', lambda o: cirq.equal_up_to_global_phase(g, o)), ('equal_up_to_global_phase(rev)', lambda o: cirq.equal_up_to_global_phase(o, g)),
+            ('approx_eq', lambda o: cirq.approx_eq(g, o)), ('==', lambda o: g == o), ('commutes', lambda o: cirq.commutes(g, o, default=None)),
+            ('pow', lambda o: cirq.pow(g, 0.5, None)), ('inverse', lambda o: cirq.inverse(g, None)), ('has_stabilizer_effect', lambda o: cirq.has_stabilizer_effect(g)),
+            ('trace_distance_bound', lambda o: cirq.trace_distance_bound(g)), ('phase_by', lambda o: cirq.phase_by(g, 0.25, 0, default=None)),
+        ]
+        rng.shuffle(calls)
+        for cname, f in calls:
+            for o in [twin] + others:
+                try:
+                    f(o)
+                except (TypeError, ValueError):
+                    pass
+            ctx.count('check', 'pure:' + cname)
+            ctx.case(['pure', cname, r0], True)
+            u1 = cirq.unitary(g)
+            if repr(g) != r0 or u1.shape != u0.shape or not np.allclose(u1, u0, atol=1e-12) or g != twin or hash(g) != hash(twin):
+                ctx.report_witness(f'predicate:impure:{cname.split("(")[0]}', f'calling {cname} on a gate changes the gate (its matrix, its description or what it is equal to)',
+                                   {'lines': [{'gate': r0, 'call': cname}], 'impl_out': [repr(g), repr(np.round(u1, 6).tolist())[:400]], 'spec_out': [r0, repr(np.round(u0, 6).tolist())[:400]],
+                                    'theorem_or_correspondence': 'predicates are functions of the gate'})
+                break
+
+
+def check_control_value_equality(ctx, cirq):
+    """controlled operations / gates over every way of writing control values (products of per-qubit sets, sums of joint assignments): two
+    of them compare (and hash) equal only when they are controlled on the same set of assignments, i.e. have the same matrix"""
+    a, b, t = cirq.LineQubit.range(3)
+    sets2 = [(0,), (1,), (0, 1)]
+    specs = [('pos', cirq.ProductOfSums([x, y])) for x in sets2 for y in sets2]
+    joint = [(0, 0), (0, 1), (1, 0), (1, 1)]
+    for r in range(1, 5):
+        for terms in itertools.combinations(joint, r):
+            specs.append(('sop', cirq.SumOfProducts(list(terms))))
+    vals = []
+    for kind, cvs in specs:
+        op = cirq.X(t).controlled_by(a, b, control_values=cvs)
+        vals.append((f'{kind}:{cvs!r}', op, cirq.unitary(op)))
+        g = cirq.ControlledGate(cirq.X, control_values=cvs)
+        vals.append((f'gate:{kind}:{cvs!r}', g, cirq.unitary(g)))
+    # one qutrit control and one qubit control
+    q3 = cirq.LineQid(5, 3)
+    sets3 = [(0,), (1,), (2,), (0, 1), (0, 2), (1, 2), (0, 1, 2)]
+    for x in sets3:
+        for y in sets2:
+            op = cirq.X(t).controlled_by(q3, a, control_values=cirq.ProductOfSums([x, y]))
+            vals.append((f'pos3:{x}{y}', op, cirq.unitary(op)))
+    for terms in ([(0, 0), (1, 1)], [(0, 0), (2, 1)], [(0, 0), (0, 1), (1, 0), (1, 1)], [(1, 0), (2, 1)], [(0, 1), (1, 1), (2, 1)], [(2, 0), (2, 1)]):
+        op = cirq.X(t).controlled_by(q3, a, control_values=cirq.SumOfProducts(terms))
+        vals.append((f'sop3:{terms}', op, cirq.unitary(op)))
+    for (na, va, ua), (nb, vb, ub) in itertools.combinations(vals, 2):
+        if type(va) is not type(vb):
+            continue
+        try:
+            same = bool(va == vb)
+        except Exception:
+            continue
+        ctx.count('check', f'cv-eq:{same}')
+        ctx.case(['cv-eq', na, nb], True)
+        same_matrix = ua.shape == ub.shape and np.allclose(ua, ub, atol=1e-9)
+        if same and (not same_matrix or hash(va) != hash(vb)):
+            ctx.report_witness('predicate:eq:control-values', 'two controlled operations compare equal but are controlled on different assignments (different matrices) or hash differently',
+                               {'lines': [{'a': repr(va), 'b': repr(vb)}], 'impl_out': ['a == b'], 'spec_out': ['different matrices' if not same_matrix else 'equal hashes'], 'theorem_or_correspondence': 'equality_sound / C08_cv_expand'})
 
 
 def replay(ctx, rep):
